@@ -180,16 +180,16 @@ void scen_c04(mt_case * c) {
   myth_verif_clock_fn = vclock;
   mt_lib_start(c, &e, 0);
   mv_set_point_observer(observer); mv_set_spin_observer(spin_obs);
-  for (int m = 0; m < P.M; m++) myth_mutex_init(&mtx[m], 0);
+  for (int m = 0; m < P.M; m++) Z0(myth_mutex_init(&mtx[m], 0));
   myth_thread_t th[16], oc[4];
   /* child first: an occupier takes over the creating worker; the creator and whatever else sits in that worker's
      run queue (threads that yielded there, possibly holding a mutex) can only go on by being stolen */
   for (int t = 0; t <= P.T; t++) {
-    for (int i = 0; i < n_occupiers; i++) if (occ_pos[i] == t) myth_create_ex(&oc[i], 0, occupier, 0);
-    if (t < P.T) myth_create_ex(&th[t], 0, body, (void *)(intptr_t)t);
+    for (int i = 0; i < n_occupiers; i++) if (occ_pos[i] == t) Z0(myth_create_ex(&oc[i], 0, occupier, 0));
+    if (t < P.T) Z0(myth_create_ex(&th[t], 0, body, (void *)(intptr_t)t));
   }
-  for (int t = 0; t < P.T; t++) { myth_join(th[t], 0); mv_progress(); }
-  for (int i = 0; i < n_occupiers; i++) { myth_join(oc[i], 0); mv_progress(); }
+  for (int t = 0; t < P.T; t++) { Z0(myth_join(th[t], 0)); mv_progress(); }
+  for (int i = 0; i < n_occupiers; i++) { Z0(myth_join(oc[i], 0)); mv_progress(); }
   mt_lib_finish();
 
   for (int m = 0; m < P.M; m++) {
